@@ -182,7 +182,23 @@ def gen_plan(seed, cfg):
             "capacity": rng.choice([1, 1, 2, 3, 8, 1 << 20]), "decisions": None,
             "cache_size": cache_size if nprob > 1 else 128}
     r_sweep = rng.random()
-    if r_sweep >= 0.9:
+    if 0.87 <= r_sweep < 0.9:
+        # eviction storm: thread 0 is parked inside a call of a cached method while thread 1 compiles
+        # 130 never-seen problems (more than the kernel cache holds), then thread 0 goes on with a
+        # method that has been evicted meanwhile
+        plan["mode"] = "eviction_storm"
+        plan["n"] = 2
+        ci = rng.choice([c for c in range(12)])
+        plan["problems"] = [{"catalog": ci, "name": f"o{seed % 100000:05d}e", "backend": "cffi" if rng.random() < 0.1 else "llvm",
+                             "entry": rng.choice(ENTRY_POINTS), "prewarm": rng.random() < 0.7},
+                            {"flood": 130, "name": f"z{seed % 100000:05d}", "backend": "llvm", "entry": "evaluate",
+                             "prewarm": False, "catalog": 0}]
+        va = rng.choice([0, 1, 2])
+        plan["threads"] = [[[0, va]], [[1, 0]]]
+        plan["cache_size"] = 128
+        plan["sched"] = {"strategy": "pct_writes", "p_hot": 0.0, "p_cold": 0.0, "p_gc": 0.0, "global_points": True,
+                         "park_at": {"0": rng.randint(1, 14)}, "first": 0}
+    elif r_sweep >= 0.9:
         # generation race: two threads generate two DIFFERENT never-seen kernels at the same time; the
         # victim is parked before each of its accesses to module-level state that a solo generation
         # was seen to mutate (counters, memo tables, "current ..." globals), one position per run,
@@ -267,6 +283,12 @@ def _do_call(prob, tensors, v=0):
     from tensora import tensor_method
     from tensora.compile import BackendCompiler, evaluate_cffi, evaluate_tensora
 
+    if prob.get("flood"):
+        x = tensors["x"]
+        last = None
+        for k in range(prob["flood"]):
+            last = evaluate_tensora(f"{prob['name']}n{k}(i) = q{k}(i)", "d", **{f"q{k}": x})
+        return last
     a, of, params = CATALOG[prob["catalog"]]
     if a.startswith("op:"):
         x = tensors[params["a"]]
@@ -323,10 +345,43 @@ def _write_lines(code):
     return frozenset(lines)
 
 
+_stored_globals = {}
+
+
+def _names_stored_globally(filename):
+    """Names that some function of the module re-binds with STORE_GLOBAL / DELETE_GLOBAL: module-level
+    state even if every generation leaves it as it found it (push / pop, set / restore)."""
+    import dis
+    import types
+
+    if filename not in _stored_globals:
+        names = set()
+        try:
+            top = compile(open(filename).read(), filename, "exec")
+        except Exception:
+            top = None
+
+        def walk(code):
+            if code.co_name != "<module>":
+                for ins in dis.get_instructions(code):
+                    if ins.opname in ("STORE_GLOBAL", "DELETE_GLOBAL"):
+                        names.add(ins.argval)
+            for c in code.co_consts:
+                if isinstance(c, types.CodeType):
+                    walk(c)
+
+        if top is not None:
+            walk(top)
+        _stored_globals[filename] = frozenset(names)
+    return _stored_globals[filename]
+
+
 def _shared_lines(code, names):
-    """Lines of a code object that load, store or delete one of the given module-level names."""
+    """Lines of a code object that load, store or delete one of the given module-level names (or a
+    name the module re-binds somewhere)."""
     import dis
 
+    names = set(names) | _names_stored_globally(code.co_filename)
     lines = set()
     cur = None
     for ins in dis.get_instructions(code):
@@ -590,6 +645,9 @@ def _run_once(plan, cfg=None):
         want_shared = plan["sched"].get("strategy") == "pct_shared"
         fp0 = _module_state() if want_shared else None
         for pi, v in calls:
+            if problems[pi].get("flood"):
+                ref[(pi, v)] = ("flood", None)  # 130 throw-away compilations: only "no exception" is asked
+                continue
             try:
                 ref[(pi, v)] = ("ok", _raw(_do_call(problems[pi], tensors[v], v)))
             except Exception as e:
@@ -598,7 +656,7 @@ def _run_once(plan, cfg=None):
         shared_names = _state_diff(fp0, _module_state()) if want_shared else {}
         _porcelain.cachable_tensor_method.cache_clear()
         for p in problems:
-            if p["prewarm"]:
+            if p["prewarm"] and not p.get("flood"):
                 try:
                     _do_call(p, tensors[0])
                 except Exception:
@@ -706,6 +764,10 @@ def _run_once(plan, cfg=None):
                     raise RuntimeError(f"simulated thread {i} died in harness code: {errors[i]}")
                 for k, ((pi, v), r) in enumerate(zip(plan["threads"][i], results[i])):
                     exp = ref[(pi, v)]
+                    if exp[0] == "flood":
+                        if r[0] == "exc":
+                            viol("unexpected_exception", f"thread{i}.call{k}", r[1], r[2], "flood")
+                        continue
                     if r[0] == "exc":
                         if exp[0] != "exc" or exp[1] != r[1]:
                             viol("unexpected_exception", f"thread{i}.call{k}", r[1], r[2],
@@ -777,13 +839,15 @@ def _run_once(plan, cfg=None):
 
 
 def fingerprint(plan, violation):
-    probs = sorted({(CATALOG[p["catalog"]][0], p["backend"], p["entry"]) for p in plan["problems"]})
+    probs = sorted({("flood of never-seen problems" if p.get("flood") else CATALOG[p["catalog"]][0],
+                     p["backend"], p["entry"]) for p in plan["problems"]})
     return f"{violation['oracle']} @ " + "; ".join(f"{a} [{b}/{e}]" for a, b, e in probs)
 
 
 def sample(plan, res):
     return {"threads": plan["threads"], "n": plan["n"],
-            "problems": [{"assignment": CATALOG[p["catalog"]][0].format(o=p["name"]),
+            "problems": [{"assignment": f"flood of {p['flood']} never-seen problems" if p.get("flood")
+                          else CATALOG[p["catalog"]][0].format(o=p["name"]),
                           "format": CATALOG[p["catalog"]][1], "backend": p["backend"],
                           "entry": p["entry"], "prewarm": p["prewarm"]} for p in plan["problems"]],
             "sched": plan["sched"], "capacity": plan["capacity"],
